@@ -62,6 +62,10 @@ CaseResult one_round(Tape &t, int round)
   static const int kLimitsThorough[] = { 16, 20, 24, 32, 64, 100, 256, 1024, 4096, 8192, 20000 };
   bool thorough = fw::tier() == "thorough";
   int limit = thorough ? kLimitsThorough[t.pick(11)] : kLimitsQuick[t.pick(9)];
+  // one launch in ten from a parent with thousands of descriptors open (more than one batch of a directory listing of
+  // /proc/self/fd, more than FD_SETSIZE, more than any small table)
+  bool many = t.chance(1, 10);
+  if (many) limit = std::max(limit, thorough ? 8192 : 4096);
   sc::Plan plan;
   plan.eff[0] = kIn[t.pick(6)];
   plan.eff[1] = kIn[t.pick(6)];
@@ -97,8 +101,18 @@ CaseResult one_round(Tape &t, int round)
   bool top = t.chance(2, 3), top2 = t.chance(1, 2);
   if (top) add(limit - 1);
   if (top2) add(limit - 2);
-  switch (t.weighted({ 2, 5, 3, 2 })) {
+  switch (many ? 9 : t.weighted({ 2, 5, 3, 2 })) {
     case 0: break;
+    case 9: {
+      // a block of 1400-3000 consecutive numbers (with a few holes) above the harness's own descriptors, plus a handful below
+      int n = (int) t.range(1400, std::min(3000, limit - 1100));
+      int hole_every = (int) t.range(0, 50);
+      for (int i = 0; i < n; i++)
+        if (hole_every < 7 || i % hole_every != 3) add(1000 + i);
+      int low = (int) t.range(0, 6);
+      for (int i = 0; i < low; i++) add((int) t.range(3, 599));
+      break;
+    }
     case 1: {
       int n = (int) t.range(1, 6);
       for (int i = 0; i < n; i++) add((int) t.range(3, limit - 1));
@@ -225,6 +239,7 @@ CaseResult one_round(Tape &t, int round)
   if (limit <= 32) res.cls("tiny-limit");
   if (closed_mask) res.cls("parent-0-2-partly-closed");
   if (limit >= 4096) res.cls("large-limit");
+  if (placed >= 1366) res.cls("thousands-of-descriptors-open");
   std::vector<int> head(placed_fds.begin(), placed_fds.begin() + (long) std::min<size_t>(placed_fds.size(), 12));
   res.describe = J().kv("limit", limit)
                      .kv("closed_parent_fds_mask", closed_mask)
